@@ -12,15 +12,17 @@ GEN_MC = {
             "thorough": [("gen_k3", "MCGenerator.tla", "MCGenerator_k3.cfg")]},
     "C12": {"quick": [("gen_reset", "MCGenerator.tla", "MCGenerator_reset.cfg"), ("gen_hint", "MCGenerator.tla", "MCGenerator_hint.cfg")],
             "thorough": [("gen_reset", "MCGenerator.tla", "MCGenerator_reset.cfg"), ("gen_hint", "MCGenerator.tla", "MCGenerator_hint.cfg")]},
+    "C18": {"quick": [("stream", "MCStream.tla", "MCStream.cfg")], "thorough": [("stream", "MCStream.tla", "MCStream.cfg")]},
     "C13": {"quick": [("zeros", "MCZeros.tla", "MCZeros.cfg"), ("gen_hint", "MCGenerator.tla", "MCGenerator_hint.cfg")],
             "thorough": [("zeros", "MCZeros.tla", "MCZeros.cfg"), ("gen_hint", "MCGenerator.tla", "MCGenerator_hint.cfg")]},
 }
-GEN_MODE = {"C01": "inputs", "C03": "hist3", "C12": "hist12", "C13": "sizes"}
+GEN_MODE = {"C01": "inputs", "C03": "hist3", "C12": "hist12", "C13": "sizes", "C18": "stream"}
 GEN_REQUIRED = {"MCGenerator.tla": ["Byte", "BeginSlice", "SliceByte"], "MCRef.tla": ["Next"]}
 GEN_RULE = {
     "C01": "inputs from 6 classes (uniform, low-entropy, periodic, zero-heavy, trigger-word adversarial, one-level piece floods) with lengths on/around block size borders; each hashed in one slice and by hash_buf, all four finalisers compared with L1 by TLC. non-trivial = distinct units in which the real generator performed at least one block hash elimination (bhidx_start > 0 by the guarded probe)",
     "C03": "call histories: one payload delivered by random schedules of update/update_by_iter/update_by_byte/+= forms, clones, finalisation after every call, hash_buf, hash_stream with a chunking reader; every observation compared with L1 on the concatenated prefix. non-trivial = distinct histories with at least one elimination",
     "C12": "call histories with set_fixed_input_size(_in_usize) before / in the middle / at the end (right, wrong, too large, repeated) and reset() followed by a second full history. non-trivial = distinct histories with at least one elimination",
+    "C18": "hash_stream over scripted readers: payloads of length 0, 1, 7, 300, 32 KiB +-1 (thorough: 64 KiB +-1, 100 KB) delivered by read sizes {1,2,7,32767,32768,all,random}; an error of 5 kinds (with an identity) injected at read index 0, 1, 2, the last data read and the EOF read; premature EOF; reads-after-error counted. hash_file on regular temporary files, a missing path, a directory, /proc/self/status and a FIFO (metadata size 0). non-trivial = scripts with an injected fault (counted in driver_stats); distinct_nontrivial counts payload units with an elimination",
     "C13": "generators positioned after N zero bytes (guarded hook, validated against really feeding zeros) followed by trigger-word suffixes at every block size border 192*2^n +-2, around 96 GiB and 192 GiB, small-input query. non-trivial = distinct scenarios with at least one elimination",
 }
 
@@ -50,7 +52,8 @@ def check_gen(pid, tier):
     st = list(stats.values())[0] if stats else {}
     nev = sum(1 for f in files for _ in open(f))
     v.cov["evaluations"] = nev
-    v.cov["distinct_nontrivial"] = st.get("units_with_elimination", 0)
+    v.cov["distinct_nontrivial"] = st.get("fault_scripts" if pid == "C18" else "units_with_elimination", 0)
+    v.cov["driver_stats"] = st
     v.cov["units"] = st.get("units", 0)
     v.cov["units_with_last_hash"] = st.get("units_with_last_hash", 0)
     v.cov["rule"] = GEN_RULE[pid]
@@ -257,8 +260,47 @@ def replay_obj(pid, path):
     return 1 if v.violations else 0
 
 
-CHECKS = {"C01": check_gen, "C03": check_gen, "C12": check_gen, "C13": check_gen}
-REPLAY = {"C01": replay_gen, "C03": replay_gen, "C12": replay_gen, "C13": replay_gen}
+HASH_TBL = {
+    "C19": {"modes": ["all"], "mc": {"quick": [("hashes_scaled", "MCHashes.tla", "MCHashes_scaled.cfg"), ("hashes_real", "MCHashes.tla", "MCHashes_real.cfg")],
+                                     "thorough": [("hashes_scaled", "MCHashes.tla", "MCHashes_scaled.cfg"), ("hashes_real", "MCHashes.tla", "MCHashes_real.cfg")]},
+            "rule": "byte strings of the C01 classes (<= 4 KiB): RollingHash::value() and PartialFNVHash::value() after EVERY prefix against RollDef(last 7 bytes) and the low six bits of a 32-bit FNV-1 state carried by the spec; slice / iterator / single-byte / += / mixed forms on random splits; the complete 64 x 256 FNV transition table (all 64 states reached through the public API). non-trivial = bytes stepped",
+            "nontrivial": ("hashes", "bytes")},
+}
+
+
+def _hash_violation(v, r, cache):
+    evs = cache.setdefault(r["file"], read_events(r["file"]))
+    k = r["rejected_at"]
+    what = "hash primitive trace rejected at event %d of %s: %s" % (k, os.path.basename(r["file"]), (r["mismatch"] or ["no spec step matches this event"])[0][:600])
+    v.violation(what, {"family": "hashes", "property": v.pid, "events": [evs[k - 1]], "offending_event": evs[k - 1], "spec": r["mismatch"][:1]})
+
+
+def check_hashes(pid, tier):
+    return check_family(pid, tier, HASH_TBL, "hashes", "TraceHash.tla", "TraceHash.cfg", _hash_violation)
+
+
+def replay_hashes(pid, path):
+    # the drivers are deterministic in VERIF_SEED; a replay re-runs the recorded byte string
+    v = Verdict(pid, "quick")
+    obj = json.load(open(path))
+    binp = build_harness()
+    out = fresh_dir("replay_" + pid)
+    inp = os.path.join(out, "in.ndjson")
+    with open(inp, "w") as fh:
+        for e in obj["events"]:
+            fh.write(json.dumps(e) + "\n")
+    run_harness(binp, ["replay", "hashes", inp, "--out", out])
+    files = [x for x in sorted(glob.glob(os.path.join(out, "*.ndjson"))) if not x.endswith("in.ndjson")]
+    res = run_tv("TraceHash.tla", "TraceHash.cfg", files)
+    cache = {}
+    for r in res:
+        if not r["accepted"]:
+            _hash_violation(v, r, cache)
+    return 1 if v.violations else 0
+
+
+CHECKS = {"C01": check_gen, "C03": check_gen, "C12": check_gen, "C13": check_gen, "C18": check_gen, "C19": check_hashes}
+REPLAY = {"C01": replay_gen, "C03": replay_gen, "C12": replay_gen, "C13": replay_gen, "C18": replay_gen, "C19": replay_hashes}
 for _p in CMP:
     CHECKS[_p] = check_cmp
     REPLAY[_p] = replay_cmp
